@@ -62,8 +62,16 @@ def build(r):
             fs.filters[-1]["description"] = plain_line(r, pref, set())
     names = [f["name"] for f in fs.filters]
     for _ in range(r.randint(0, 5)):
-        op = r.choice(["disable", "enable", "up", "down", "remove", "update", "replace", "disable"])
+        op = r.choice(["disable", "enable", "up", "down", "remove", "update", "replace", "disable", "observe"])
         nm = r.choice(names)
+        if op == "observe":     # read-only accessors must not change what is saved
+            for fn in (fs.get_filter_actions, fs.get_filter_conditions, fs.get_filter_matchtype, fs.is_filter_disabled, fs.getfilter):
+                try:
+                    fn(nm)
+                except Exception:  # noqa
+                    pass
+            str(fs)
+            continue
         if op == "disable":
             fs.disablefilter(nm)
         elif op == "enable":
